@@ -184,6 +184,18 @@ def eval_assert(a, vec):
     return {"<": greater < o, "<=": greater <= o, ">": lower > o, ">=": lower >= o}[a["op"]]
 
 
+def eval_all_operands(a, vec):
+    """Evaluate every operand of an assertion (raises ZeroDivisionError if any divides by zero)."""
+    k = a["k"]
+    if k == "cmp":
+        eval_operand(a["l"], vec)
+        eval_operand(a["r"], vec)
+    elif k == "chain":
+        eval_all_operands(a["first"], vec)
+        eval_operand(a["other"], vec)
+    return True
+
+
 def coq_verdict(v):
     if "ok" in v:
         return "(VOk %s)" % MG.coq_ival(v["ok"])
@@ -259,7 +271,8 @@ def run(ctx):
                 expect = "limit"
             else:
                 try:
-                    truth = all(eval_assert(a["a"], vec) for a in c["asserts"])
+                    # no short-circuit: a division by zero in any operand is outside the compared domain
+                    truth = all([eval_all_operands(a["a"], vec) and eval_assert(a["a"], vec) for a in c["asserts"]])
                 except ZeroDivisionError:
                     ctx.hist("skipped", "division-by-zero")
                     continue
@@ -299,7 +312,7 @@ def run(ctx):
                 continue
             inside = all(lo <= x <= hi for x, (lo, hi) in zip(vec, lims))
             try:
-                truth = all(eval_assert(a["a"], vec) for a in c["asserts"])
+                truth = all([eval_all_operands(a["a"], vec) and eval_assert(a["a"], vec) for a in c["asserts"]])
             except ZeroDivisionError:
                 continue
             expect = "ok" if (inside and truth) else ("limit" if not inside else "assert")
